@@ -466,7 +466,7 @@ def frame_declarations(ctx):
     # user identifiers cannot start with '_'
     g = repo.module('qbee.grammar')
     ui = g.assigns.get('untyped_identifier')
-    ok = ui is not None and 'Word(alphas, alphanums)' in unparse(ui)
+    ok = ui is not None and pat.has('Word(alphas, alphanums)', ui)
     ctx.instance(rule2, 'qbee/grammar.py:untyped_identifier',
                  sample={'definition': unparse(ui) if ui else None})
     if not ok:
